@@ -6,6 +6,7 @@ The tree never appears concretely: nodes are symbolic integers, the graph is an 
 (function, loop kind, ordinal)."""
 import ast, z3
 from pyvc import *
+from pyvc.engine import PyRaise
 from pyvc.engine import LoopSpec
 from pyvc import solver
 
@@ -121,7 +122,7 @@ def child_curr(run, src):
         for s in p.side:
             if s["what"].startswith("index"):       # indices come from the graph's own lists
                 continue
-            obls.append({"id": qual + "/safety:%s@L%s" % (s["what"], s["line"]), "hyps": s["hyps"], "goal": s["goal"], "kind": "safety", "meta": {}})
+            obls.append({"id": qual + "/safety:%s@[%s]" % (s["what"], s["at"]), "hyps": s["hyps"], "goal": s["goal"], "kind": "safety", "meta": {}})
     run.assumed.add("rustworkx / System._get_parents/_get_childs: '-1' for roots/leaves, else index lists; children of a node have at least one parent")
     return obls
 
@@ -351,7 +352,7 @@ def calc_energy(run, src):
                 obls.append({"id": "%s/never-raises[%s]@p%d" % (qual, case, pi), "hyps": p.pc, "goal": z3.BoolVal(False), "kind": "post", "meta": {}})
             for s in p.side:
                 if z3.is_true(z3.simplify(s["goal"])) or s["what"].startswith("index"): continue
-                obls.append({"id": "%s/safety[%s]:%s@L%s" % (qual, case, s["what"], s["line"]), "hyps": s["hyps"], "goal": s["goal"], "kind": "safety", "meta": {}})
+                obls.append({"id": "%s/safety[%s]:%s@[%s]" % (qual, case, s["what"], s["at"]), "hyps": s["hyps"], "goal": s["goal"], "kind": "safety", "meta": {}})
     run.functions.update(eng.inlined)
     obls = list(eng.obligations) + obls
     run.notes.append("_calc_energy requires sum of phase durations > 0 when phases are defined (input assumption: durations are positive)")
@@ -392,6 +393,22 @@ def solve_slices(run, src):
     return obls
 
 
+def _param_defaults(fn):
+    """parameters of a function that have a literal default -> {name: value}: a contract that calls the function without
+    naming a (new) optional parameter sees it at its default, like every caller that does not use the new feature"""
+    a = fn.args
+    out = {}
+    pos = a.posonlyargs + a.args
+    for p_, d_ in zip(pos[len(pos) - len(a.defaults):], a.defaults):
+        try: out[p_.arg] = ast.literal_eval(d_)
+        except Exception: pass
+    for p_, d_ in zip(a.kwonlyargs, a.kw_defaults):
+        if d_ is None: continue
+        try: out[p_.arg] = ast.literal_eval(d_)
+        except Exception: pass
+    return out
+
+
 def _solve_prelude(run, src, fn, prelude, outer, phase_prelude):
     qual = "system.System.solve/prelude"
     obls = []
@@ -408,8 +425,9 @@ def _solve_prelude(run, src, fn, prelude, outer, phase_prelude):
     selfobj = Opaque("self", cls="System", attrs={"_g": g})
     def thunk(e):
         e.assume(NPH >= 0)
-        env = {"self": selfobj, "phase": SV(phase, "name"), "vtol": SV(z3.Real("vtol")), "itol": SV(z3.Real("itol")), "maxiter": SV(z3.Int("maxiter")),
-               "quiet": SV(z3.Bool("quiet")), "energy": SV(z3.Bool("energy")), "ta": SV(z3.Real("ta")), "tags": {}}
+        env = _param_defaults(fn)
+        env.update({"self": selfobj, "phase": SV(phase, "name"), "vtol": SV(z3.Real("vtol")), "itol": SV(z3.Real("itol")), "maxiter": SV(z3.Int("maxiter")),
+               "quiet": SV(z3.Bool("quiet")), "energy": SV(z3.Bool("energy")), "ta": SV(z3.Real("ta")), "tags": {}})
         e.run_block("system", "System", prelude, env, fn)
         return env.get("phase_list")
     try:
@@ -437,11 +455,15 @@ def _solve_prelude(run, src, fn, prelude, outer, phase_prelude):
     def solve_override(e, recv, args, kw):
         names = ["vtol", "itol", "maxiter", "quiet", "ph"]
         loc = e.frames[-1].locals
-        ok = z3.BoolVal(len(args) + len(kw) == 5)
-        full = list(args) + [None] * (5 - len(args))
+        full = list(args[:5]) + [None] * (5 - len(args[:5]))
         pn = ["vtol", "itol", "maxiter", "quiet", "phase"]
         for j, nm in enumerate(pn):
             if full[j] is None and nm in kw: full[j] = kw[nm]
+        # further (newer, optional) solver arguments: allowed when they carry the solver's own default (a call that does not use the feature)
+        _, sfn = src.method("System", "_solve")
+        sdef = _param_defaults(sfn); snames = [a_.arg for a_ in sfn.args.args[1:]]
+        extra = dict(zip(snames[5:], args[5:])); extra.update({k_: v_ for k_, v_ in kw.items() if k_ not in pn})
+        ok = z3.BoolVal(all(full[j] is not None for j in range(5)) and all((k_ in sdef) and (not is_sym(v_)) and v_ == sdef[k_] for k_, v_ in extra.items()))
         conds = []
         for j, nm in enumerate(names):
             a_ = full[j]
@@ -450,8 +472,9 @@ def _solve_prelude(run, src, fn, prelude, outer, phase_prelude):
         return (Opaque("v"), Opaque("i"), SV(ITERS, "int"), Opaque("state"))
     eng2.overrides["system.System._solve"] = solve_override
     def thunk2(e):
-        env = {"self": Opaque("self", cls="System"), "ph": SV(z3.Const("ph", NAME), "name"), "vtol": SV(z3.Real("vtol")), "itol": SV(z3.Real("itol")),
-               "maxiter": SV(z3.Int("maxiter")), "quiet": SV(z3.Bool("quiet")), "phase_list": [SV(z3.Const("ph", NAME), "name")]}
+        env = _param_defaults(fn)
+        env.update({"self": Opaque("self", cls="System"), "ph": SV(z3.Const("ph", NAME), "name"), "vtol": SV(z3.Real("vtol")), "itol": SV(z3.Real("itol")),
+               "maxiter": SV(z3.Int("maxiter")), "quiet": SV(z3.Bool("quiet")), "phase_list": [SV(z3.Const("ph", NAME), "name")]})
         e.run_block("system", "System", phase_prelude, env, fn)
         return None
     try:
@@ -536,6 +559,7 @@ def _solve_node_slice(run, src, fn, inner, colblock):
             if nm in env or nm in stored or nm in ("len", "print", "any", "list", "range", "sum", "abs", "pd", "np", "_get_eff"): continue
             if nm == "show_trise": env[nm] = e.fresh("show_trise", "bool")
             elif nm == "dname": env[nm] = e.fresh("dname_prev", "name")
+            elif nm in _param_defaults(fn): env[nm] = _param_defaults(fn)[nm]       # an optional parameter this contract does not name: at its default
             else: env[nm] = HavocDict()
         return env
     boolflags = {t.id for s_ in ast.walk(fn) if isinstance(s_, ast.Assign) and isinstance(s_.value, ast.Constant) and isinstance(s_.value.value, bool)
@@ -901,7 +925,15 @@ def warnings_contracts(run, src):
                 return [SV(z3.If(hask[key], lo[key], to_z(default[0], "real")), "real"), SV(z3.If(hask[key], hi[key], to_z(default[1], "real")), "real")]
             raise Unsupported("_get_opt outside its contract use")
         eng.overrides["components._get_opt"] = get_opt
-        limits = Opaque("limits")
+        # the limits dictionary of a component: any subset of the applicable keys, each holding a [min, max] pair
+        def lim_contains(e, key, hask=hask):
+            if key in hask: return hask[key]
+            raise Unsupported("limits membership test for a key outside the kind's list")
+        def lim_getitem(e, key, hask=hask, lo=lo, hi=hi):
+            if key not in hask: raise Unsupported("limits[%r]" % (key,))
+            if e.decide(hask[key]): return [SV(lo[key], "real"), SV(hi[key], "real")]
+            raise PyRaise("KeyError", repr(key), implicit=True)
+        limits = Opaque("limits", contains=lim_contains, getitem=lim_getitem)
         try:
             paths = eng.explore(lambda e: e.call_function("components._get_warns", [limits, {k: SV(x[k], "real") for k in keys}]))
         except (Unsupported, FunctionMissing) as u:
@@ -914,7 +946,17 @@ def warnings_contracts(run, src):
             for k in keys:
                 present = z3.Or(*[g for g, t in toks if t == k]) if any(t == k for g, t in toks) else z3.BoolVal(False)
                 l_ = z3.If(hask[k], lo[k], z3.RealVal(repr(float(DEF[k][0])))); h_ = z3.If(hask[k], hi[k], z3.RealVal(repr(float(DEF[k][1]))))
-                obls.append({"id": "%s/post:token %s <=> limit exceeded@p%d" % (qual, k, pi), "hyps": p.pc, "goal": present == S.exceeded(ZO, k, x[k], l_, h_), "kind": "post", "meta": {}})
+                def replay(model, zm, keys=keys, k=k, x=x, hask=hask, lo=lo, hi=hi):
+                    import sysloss.components as C
+                    fv = lambda t: float(solver.frac(zm.eval(t, model_completion=True)))
+                    lim = {kk: [fv(lo[kk]), fv(hi[kk])] for kk in keys if z3.is_true(zm.eval(hask[kk], model_completion=True))}
+                    chk = {kk: fv(x[kk]) for kk in keys}
+                    d_lo, d_hi = lim.get(k, C.LIMITS_DEFAULT[k])
+                    want = (chk[k] > d_hi or chk[k] < d_lo) if k == "tp" else (abs(chk[k]) > abs(d_hi) or abs(chk[k]) < abs(d_lo))
+                    try: got = k in C._get_warns(dict(lim), dict(chk)).split()
+                    except Exception as ex: return {"confirmed": True, "call": "_get_warns(%r, %r)" % (lim, chk), "observed": {"raised": type(ex).__name__}}
+                    return {"confirmed": got != want, "call": "sysloss.components._get_warns(%r, %r)" % (lim, chk), "observed": {"token %s present" % k: got}, "required": {"token %s present" % k: want}}
+                obls.append({"id": "%s/post:token %s <=> limit exceeded@p%d" % (qual, k, pi), "hyps": p.pc, "goal": present == S.exceeded(ZO, k, x[k], l_, h_), "kind": "post", "meta": {"replay": replay}})
             stray = [t for g, t in toks if t not in keys]
             obls.append({"id": qual + "/post:no other tokens@p%d" % pi, "hyps": p.pc, "goal": z3.BoolVal(not stray), "kind": "post", "meta": {}})
             k0 = keys[0]
